@@ -98,97 +98,190 @@ func c11r2(p *Program, r *Report) {
 		return
 	}
 	info := fi.Pkg.TypesInfo
-	var lit *ast.FuncLit
+	// the generator Pick returns: a closure, or a method value of an iterator object (then the method and the
+	// helper methods it is split into are the generator)
+	type unit struct {
+		g    *Graph
+		body ast.Node
+		fn   *FuncInfo // nil for the closure
+		name string
+	}
+	var units []unit
 	for l, f := range nextHostLits(p) {
 		if f == fi {
-			lit = l
+			units = append(units, unit{p.GraphOfLit(fi, l), l, nil, "(*tokenAwareHostPolicy).Pick closure"})
 		}
 	}
-	if lit == nil {
-		r.Unresolved("token-aware Pick returns no closure")
-		return
-	}
-	// the used set
-	var usedObj types.Object
-	ast.Inspect(fi.Decl.Body, func(n ast.Node) bool {
-		if as, ok := n.(*ast.AssignStmt); ok && len(as.Rhs) == 1 {
-			if c, ok := ast.Unparen(as.Rhs[0]).(*ast.CallExpr); ok && calleeName(info, c) == "builtin.make" {
-				if m, ok := info.TypeOf(c).Underlying().(*types.Map); ok {
-					if b, ok := m.Elem().Underlying().(*types.Basic); ok && b.Kind() == types.Bool && strings.Contains(m.Key().String(), "HostInfo") {
-						if id, ok := as.Lhs[0].(*ast.Ident); ok {
-							usedObj = info.Defs[id]
+	if len(units) == 0 {
+		inspectNoLit(fi.Decl.Body, func(x ast.Node) bool {
+			rs, ok := x.(*ast.ReturnStmt)
+			if !ok || len(rs.Results) != 1 {
+				return true
+			}
+			if sel, ok := ast.Unparen(rs.Results[0]).(*ast.SelectorExpr); ok {
+				if fn, ok := info.Uses[sel.Sel].(*types.Func); ok {
+					if m := p.FuncOf(fn); m != nil && m.Decl.Body != nil && len(units) == 0 {
+						for _, u := range p.unitsOf(m) {
+							units = append(units, unit{p.GraphOf(u), u.Decl.Body, u, u.Name})
 						}
 					}
 				}
 			}
-		}
-		return true
-	})
-	if usedObj == nil {
-		r.Unresolved("token-aware Pick: no used-set (map[*HostInfo]bool) found")
+			return true
+		})
+	}
+	if len(units) == 0 {
+		r.Unresolved("token-aware Pick returns neither a closure nor a method value of this package")
 		return
 	}
-	g := p.GraphOfLit(fi, lit)
-	facts := g.GuardFacts()
-	// marked[x]: used[x] = true executed for key expression x (string) since x was last assigned
-	marked := Solve(g, Lattice[strset]{
-		Init: strset{}, Join: func(a, b strset) strset { return a.intersect(b) }, Eq: func(a, b strset) bool { return a.eq(b) },
-		Step: func(s strset, st Step) strset {
-			if st.Kind != StNode {
-				return s
+	inUnits := func(fn *types.Func) bool {
+		for _, u := range units {
+			if u.fn != nil && u.fn.Obj == fn {
+				return true
 			}
-			for _, l := range assignedLHS(st.Node) {
-				if ix, ok := ast.Unparen(l).(*ast.IndexExpr); ok && isIdentOf(info, ix.X, usedObj) {
-					if as, ok := st.Node.(*ast.AssignStmt); ok && len(as.Rhs) == 1 {
-						if v, ok := info.Types[as.Rhs[0]]; ok && v.Value != nil && v.Value.String() == "true" {
-							s = s.with(exprStr(ix.Index))
-						}
-					}
-					continue
-				}
-				// re-assignment of a key variable invalidates marks that mention it
-				ls := exprStr(l)
-				for k := range s {
-					if mentions(k, ls) {
-						s = s.without(k)
-					}
+		}
+		return false
+	}
+	isHostKeyed := func(e ast.Expr) bool { // used[...] : a map[*HostInfo]bool
+		if t := info.TypeOf(e); t != nil {
+			if m, ok := t.Underlying().(*types.Map); ok {
+				if b, ok := m.Elem().Underlying().(*types.Basic); ok && b.Kind() == types.Bool && strings.Contains(m.Key().String(), "HostInfo") {
+					return true
 				}
 			}
-			return s
-		},
-	})
+		}
+		return false
+	}
+	returnsHost := func(u unit) bool {
+		var ft *ast.FuncType
+		if u.fn != nil {
+			ft = u.fn.Decl.Type
+		} else {
+			ft = u.body.(*ast.FuncLit).Type
+		}
+		if ft.Results == nil || len(ft.Results.List) != 1 {
+			return false
+		}
+		ts := info.TypeOf(ft.Results.List[0].Type).String()
+		return strings.HasSuffix(ts, "HostInfo") || strings.HasSuffix(ts, "SelectedHost")
+	}
 	n := 0
-	for _, e := range g.Exits() {
-		rs, ok := e.Node.(*ast.ReturnStmt)
-		if !ok || len(rs.Results) != 1 || isNil(info, rs.Results[0]) {
+	nUsed := 0
+	for _, u := range units {
+		if !returnsHost(u) {
 			continue
 		}
-		n++
-		res := ast.Unparen(rs.Results[0])
-		key := ""
-		if conv, ok := res.(*ast.CallExpr); ok && len(conv.Args) == 1 {
-			key = exprStr(conv.Args[0])
-		} else {
-			key = exprStr(res) + ".Info()"
-		}
-		m, _ := marked.Before(rs)
-		r.Check(m[key], rs, "(*tokenAwareHostPolicy).Pick closure marks "+key+" as used before returning it", "used["+key+"] = true on every path to this return",
-			"a host is returned without being recorded in the used set: the fallback iterator offers it a second time for the same query")
-		if _, isConv := res.(*ast.CallExpr); !isConv {
-			// the enclosing if tests !used[key] (the mark that follows kills the fact, so look at the guard itself)
-			known, v := false, true
-			if ifs, ok := p.enclosing(rs, lit, func(m ast.Node) bool { _, ok := m.(*ast.IfStmt); return ok }).(*ast.IfStmt); ok && posWithin(ifs.Body, rs.Pos()) {
-				if exprStr(ifs.Cond) == "!used["+key+"]" || exprStr(ifs.Cond) == "!"+usedObj.Name()+"["+key+"]" {
-					known, v = true, false
+		g := u.g
+		// marked[x]: used[x] = true executed for key expression x (string) since x was last assigned
+		marked := Solve(g, Lattice[strset]{
+			Init: strset{}, Join: func(a, b strset) strset { return a.intersect(b) }, Eq: func(a, b strset) bool { return a.eq(b) },
+			Step: func(s strset, st Step) strset {
+				if st.Kind != StNode {
+					return s
+				}
+				for _, l := range assignedLHS(st.Node) {
+					if ix, ok := ast.Unparen(l).(*ast.IndexExpr); ok && isHostKeyed(ix.X) {
+						if as, ok := st.Node.(*ast.AssignStmt); ok && len(as.Rhs) == 1 {
+							if v, ok := info.Types[as.Rhs[0]]; ok && v.Value != nil && v.Value.String() == "true" {
+								s = s.with(exprStr(ix.Index))
+								nUsed++
+							}
+						}
+						continue
+					}
+					// re-assignment of a key variable invalidates marks that mention it
+					ls := exprStr(l)
+					for k := range s {
+						if mentions(k, ls) {
+							s = s.without(k)
+						}
+					}
+				}
+				return s
+			},
+		})
+		// testedUnused[x]: a test of used[x] came out false since x was last assigned (marking x afterwards keeps it)
+		testedUnused := Solve(g, Lattice[strset]{
+			Init: strset{}, Join: func(a, b strset) strset { return a.intersect(b) }, Eq: func(a, b strset) bool { return a.eq(b) },
+			Step: func(s strset, st Step) strset {
+				switch st.Kind {
+				case StCond:
+					ce, val := ast.Unparen(st.Node.(ast.Expr)), st.Val
+					for {
+						if un, ok := ce.(*ast.UnaryExpr); ok && un.Op == token.NOT {
+							ce, val = ast.Unparen(un.X), !val
+							continue
+						}
+						break
+					}
+					if ix, ok := ce.(*ast.IndexExpr); ok && isHostKeyed(ix.X) && !val {
+						s = s.with(exprStr(ix.Index))
+					}
+				case StNode:
+					for _, l := range assignedLHS(st.Node) {
+						if ix, ok := ast.Unparen(l).(*ast.IndexExpr); ok && isHostKeyed(ix.X) {
+							continue
+						}
+						ls := exprStr(l)
+						for k := range s {
+							if mentions(k, ls) {
+								s = s.without(k)
+							}
+						}
+					}
+				}
+				return s
+			},
+		})
+		for _, e := range g.Exits() {
+			rs, ok := e.Node.(*ast.ReturnStmt)
+			if !ok || len(rs.Results) != 1 || isNil(info, rs.Results[0]) {
+				continue
+			}
+			res := ast.Unparen(rs.Results[0])
+			key := ""
+			var keyExpr ast.Expr
+			isConv := false
+			if c, ok := res.(*ast.CallExpr); ok {
+				if tv, isT := info.Types[c.Fun]; isT && tv.IsType() && len(c.Args) == 1 {
+					key, keyExpr, isConv = exprStr(c.Args[0]), c.Args[0], true
+				} else if fn := calleeOf(info, c); fn != nil && inUnits(fn) {
+					continue // the host comes from another part of the generator, whose returns are checked there
+				} else {
+					r.Bad(rs, u.name+" returns a host obtained from "+exprStr(c.Fun), "the generator returns the result of a call that is not part of it, so nothing records the host as used")
+					continue
+				}
+			} else if t := info.TypeOf(res); t != nil && strings.HasSuffix(t.String(), "SelectedHost") {
+				key, keyExpr = exprStr(res)+".Info()", res
+			} else {
+				key, keyExpr = exprStr(res), res
+			}
+			// a host variable that was produced by another part of the generator
+			if id, isId := ast.Unparen(keyExpr).(*ast.Ident); isId && u.fn != nil {
+				if d := localDefMulti(info, u.fn, id); d != nil {
+					if c, isC := ast.Unparen(d).(*ast.CallExpr); isC {
+						if fn := calleeOf(info, c); fn != nil && inUnits(fn) {
+							continue
+						}
+					}
 				}
 			}
-			_ = facts
-			r.Check(known && !v, rs, "(*tokenAwareHostPolicy).Pick closure returns fallback hosts only if unused", "dominated by !used["+key+"]", "a fallback host is returned without checking that it was not already offered as a replica")
+			n++
+			m, _ := marked.Before(rs)
+			r.Check(m[key], rs, u.name+" marks "+key+" as used before returning it", "used["+key+"] = true on every path to this return",
+				"a host is returned without being recorded in the used set: the fallback iterator offers it a second time for the same query")
+			if !isConv && strings.HasSuffix(key, ".Info()") {
+				// the enclosing if tests !used[key] (the mark that follows kills the fact, so look at the guard itself)
+				tu, _ := testedUnused.Before(rs)
+				guarded := tu[key]
+				r.Check(guarded, rs, u.name+" returns fallback hosts only if unused", "dominated by !used["+key+"]", "a fallback host is returned without checking that it was not already offered as a replica")
+			}
 		}
 	}
 	if n < 3 {
-		r.Unresolved("token-aware closure: fewer than 3 host returns (%d)", n)
+		r.Unresolved("token-aware generator: fewer than 3 host returns (%d)", n)
 	}
+	_ = nUsed
 }
 
 func c11r3(p *Program, r *Report) {
